@@ -84,7 +84,7 @@ def tie(ctx):
             for mode in ("unit", "tiny", "huge", "mixed", "mixed-tail"):
                 P = scaled_spd(rng, n, mode)
                 if r % 3 == 2:
-                    P = P + np.triu(rng.standard_normal((n, n)), 1) * 0.0   # (kept symmetric: the routine reads the lower triangle only)
+                    P = P + np.triu(rng.standard_normal((n, n)), 1) * float(np.max(np.abs(P)))   # NOT symmetric: routine and model read the lower triangle only
                 cases.append((n, mode, P))
     lines = ["%d %s" % (n, " ".join(_bits(x) for x in P.ravel())) for (n, mode, P) in cases]
     out = _lean_ldl(lines)
